@@ -30,6 +30,10 @@ def w(path, data):
         f.write(data if isinstance(data, bytes) else data.encode())
 
 
+INPLACE_FAIL_FILES = {"err.json": "[1, 2, 3]\n", "halt.json": "[1, 2]\n", "parse.json": "1 2 ]\n", "later.json": "[4]\n",
+                      "empty-out.json": "[5]\n"}
+
+
 def make_fixtures(scr):
     fix = os.path.join(scr, "fix")
     w(fix + "/lib/m.jq", 'def f: "/etc/passwd";\n')
@@ -43,6 +47,10 @@ def make_fixtures(scr):
     w(fix + "/in2.json", '["file:///etc/passwd", "$(touch %s/cwd/pwn-in2)"]\n' % scr)
     for sub, name in (("a", "f.json"), ("b", "g.json")):
         w(os.path.join(scr, "inplace", sub, name), '{"a": 1, "p": "/etc/passwd"}\n')
+    # inputs of --in-place runs that end early (filter error, halt, malformed later value): one file per case
+    os.makedirs(os.path.join(scr, "inplace", "fail"), exist_ok=True)
+    for name, text in INPLACE_FAIL_FILES.items():
+        w(os.path.join(scr, "inplace", "fail", name), text)
     tzsrc = "/usr/share/zoneinfo/Europe/Berlin"
     if os.path.exists(tzsrc):
         shutil.copyfile(tzsrc, scr + "/tz/Custom")
